@@ -213,6 +213,10 @@ func (cl *Cluster) Query(i int, nShards int, w *World, q *QueryDef, receivers []
 		PhysicalPlan: encoding.JSONMarshal(plan), Payload: payload}
 	tctx := flow.NewTaskContextWithTimeout(context.Background(), 2*leafTimeout)
 	out := make([]*protoCommonV1.TaskResponse, len(receivers))
+	t0 := time.Now()
+	defer func() {
+		noteLeafWait(fmt.Sprintf("%d", i), time.Since(t0), 2*leafTimeout, "level 2 (real storage node, real leaf task processor)")
+	}()
 	if err := cl.proc.Process(tctx, cl.streams[receivers[0]], req); err != nil {
 		// TaskHandler.process answers the requester with the error
 		for k := range out {
